@@ -214,8 +214,76 @@ def check_fem(case, rec):
     if nnz < dense.size: rec.label('sparsity-exploited')
 
 
+# ---- generated sparsity patterns: (row, col, value) triplets scattered into a matrix -----------------------------------------------
+
+BIG = [2 ** 53 + 1, -(2 ** 53) - 3, 2 ** 60 + 7, 3, -1, 0, 2 ** 31 + 5]
+
+
+@st.composite
+def pattern_cases(draw, tier):
+    nrows, ncols = draw(st.integers(1, 6)), draw(st.integers(1, 5))
+    m = draw(st.integers(0, 9))
+    dtype = draw(st.sampled_from(['float', 'float', 'int', 'int-big', 'complex']))
+    style = draw(st.sampled_from(['any', 'any', 'nnz-equals-nrows', 'row-blocks']))
+    entries = [[draw(st.integers(0, nrows - 1)), draw(st.integers(0, ncols - 1))] for _ in range(m)]
+    if style == 'nnz-equals-nrows' and nrows >= 2:
+        # as many entries as rows, first row and last row occupied, some row empty and some row holding several entries
+        rows = sorted([0, nrows - 1] + [draw(st.integers(0, nrows - 1)) for _ in range(nrows - 2)])
+        entries = [[r, (k * 2 + r) % ncols] for k, r in enumerate(rows)]
+    vals = [draw(st.sampled_from(BIG if dtype == 'int-big' else [1, 2, -3, 5, 7] if dtype == 'int' else [1.5, -2., .25, 3., -.5])) for _ in range(len(entries))]
+    return dict(nrows=nrows, ncols=ncols, entries=entries, vals=vals, dtype=dtype, as_arg=draw(st.booleans()), twice=draw(st.booleans()))
+
+
+def check_pattern(case, rec):
+    from nutils import evaluable as ev
+    nr, nc = case['nrows'], case['ncols']
+    T = {'float': float, 'int': int, 'int-big': int, 'complex': complex}[case['dtype']]
+    vals = numpy.array(case['vals'], dtype=T) if case['vals'] else numpy.zeros(0, dtype=T)
+    if T is complex: vals = vals * (1 + .5j)
+    rows = numpy.array([e[0] for e in case['entries']], dtype=int); cols = numpy.array([e[1] for e in case['entries']], dtype=int)
+    want = numpy.zeros((nr, nc), dtype=T)
+    numpy.add.at(want, (rows, cols), vals)
+    v = ev.Argument('v', (ev.constant(len(vals)),), T) if case['as_arg'] else ev.constant(vals)
+    args = dict(v=vals) if case['as_arg'] else {}
+    flat = ev.Inflate(v, ev.constant(rows * nc + cols), ev.constant(nr * nc))
+    A = ev.unravel(flat, 0, (ev.constant(nr), ev.constant(nc)))
+    if case['twice']:
+        A = A + A; want = want + want
+    what = f'{nr}x{nc} {case["dtype"]} entries {case["entries"]}'
+    try:
+        dense = numpy.asarray(ev.eval_once(A, arguments=args))
+    except Exception as e:
+        raise Violation('dense-eval-raised', f'{what}: {type(e).__name__}: {str(e)[:200]}', where='pattern:dense:' + type(e).__name__)
+    if dense.shape != want.shape or not (numpy.array_equal(dense, want) if T is int else numpy.allclose(dense, want, rtol=1e-14)):
+        raise Violation('dense-mismatch', f'{what}: dense evaluation {dense.tolist()} != {want.tolist()}', where='pattern:dense')
+    for opt in (False, True):
+        try:
+            values, (ri, ci), shape = A.simplified.assparse if opt else A.assparse
+            cv, cr, cc = ev.eval_once((values, ri, ci), arguments=args, _simplify=opt, _optimize=opt)
+        except Exception as e:
+            raise Violation('sparse-eval-raised', f'{what} [simplify/optimize={opt}]: {type(e).__name__}: {str(e)[:200]}', where='pattern:coo:' + type(e).__name__)
+        _sparse_checks(cv, (cr, cc), (nr, nc), want, 0 if T is int else 1e-13 * (1 + abs(want).max()), f'coo[{opt}] of {what}')
+    try:
+        v_, rowptr, colidx, ncols_ = ev.eval_once(ev.as_csr(A), arguments=args)
+    except Exception as e:
+        raise Violation('csr-eval-raised', f'{what}: {type(e).__name__}: {str(e)[:200]}', where='pattern:csr:' + type(e).__name__)
+    v_, rowptr, colidx = numpy.asarray(v_), numpy.asarray(rowptr), numpy.asarray(colidx)
+    if int(ncols_) != nc or rowptr.shape != (nr + 1,) or rowptr[0] != 0 or rowptr[-1] != len(v_) or (numpy.diff(rowptr) < 0).any() or len(colidx) != len(v_):
+        raise Violation('csr-structure', f'{what}: rowptr={rowptr.tolist()} ncols={ncols_} nnz={len(v_)}', where='pattern:csr-structure')
+    # the row pointers must count the entries of each row of the COO form
+    counts = numpy.bincount(numpy.asarray(cr), minlength=nr) if len(numpy.asarray(cr)) else numpy.zeros(nr, int)
+    if not numpy.array_equal(numpy.diff(rowptr), counts):
+        raise Violation('csr-rowptr', f'{what}: rowptr {rowptr.tolist()} but the COO form has {counts.tolist()} entries per row', where='pattern:csr-rowptr')
+    rws = numpy.repeat(numpy.arange(nr), numpy.diff(rowptr))
+    _sparse_checks(v_, (rws, colidx), (nr, nc), want, 0 if T is int else 1e-13 * (1 + abs(want).max()), f'csr of {what}')
+    nnz = len(v_)
+    rec.nontrivial = nnz < nr * nc and nnz > 0
+    rec.label('pattern:' + case['dtype'], *(['pattern:nnz==nrows'] if nnz == nr else []), *(['pattern:empty-row'] if (counts == 0).any() else []), *(['pattern:duplicates'] if len(set(map(tuple, case['entries']))) < len(case['entries']) else []))
+
+
 SUBS = [Sub('coo', strategy, check, {'quick': 3000, 'thorough': 30000}, weight=3, timeout=25),
-        Sub('fem', fem_cases, check_fem, {'quick': 25, 'thorough': 400}, weight=1, timeout=120)]
+        Sub('fem', fem_cases, check_fem, {'quick': 25, 'thorough': 400}, weight=1, timeout=120),
+        Sub('pattern', pattern_cases, check_pattern, {'quick': 400, 'thorough': 6000}, weight=1, timeout=30)]
 
 def _upstream_c01(case, v):
     prog = case.get('prog', case)
